@@ -804,6 +804,135 @@ theorem c10_commit_reaches (objs : List (String × Obj)) (id : String) (o : Obj)
     ((live id o >>= fun _ => commitObj n id o >>= fun _ => (pure resp : M Resp)) ⟨objs, false⟩).1.objs := by
   simp [M.bind', live, commitObj, hn, M.pure', pure]
 
+/-! ## nested elements: created elements are retrievable at the returned path, under exactly their own idShort -/
+
+private theorem findKey_key {k : String} {ch : List Elem} {c : Elem} (h : findKey k ch = some c) : c.key = k := by
+  induction ch with
+  | nil => simp [findKey] at h
+  | cons x t ih =>
+    by_cases hx : x.key = k
+    · simp [findKey, hx] at h; subst h; exact hx
+    · simp [findKey, hx] at h; exact ih h
+
+private theorem findKey_replaceKey {k : String} {ch : List Elem} {c n : Elem} (h : findKey k ch = some c) (hn : n.key = k) :
+    findKey k (replaceKey k n ch) = some n := by
+  induction ch with
+  | nil => simp [findKey] at h
+  | cons x t ih =>
+    by_cases hx : x.key = k
+    · simp [replaceKey, findKey, hx, hn]
+    · simp [findKey, hx] at h
+      simp [replaceKey, findKey, hx, ih h]
+
+private theorem findKey_append_new {k : String} {ch : List Elem} {e : Elem} (h : findKey k ch = none) (he : e.key = k) :
+    findKey k (ch ++ [e]) = some e := by
+  induction ch with
+  | nil => simp [findKey, he]
+  | cons x t ih =>
+    by_cases hx : x.key = k
+    · simp [findKey, hx] at h
+    · simp [findKey, hx] at h
+      simp [findKey, hx, ih h]
+
+private theorem withCh_key (e : Elem) (c : List Elem) : (e.withCh c).key = e.key := by cases e; rfl
+private theorem withCh_isNamespace (e : Elem) (c : List Elem) : (e.withCh c).isNamespace = e.isNamespace := by cases e; rfl
+private theorem withCh_ch (e : Elem) (c : List Elem) : (e.withCh c).ch = c := by cases e; rfl
+
+private theorem modifyAt_key (f : Elem → Elem) (hf : ∀ x, (f x).key = x.key) (root : Elem) (path : List String) :
+    (modifyAt f root path).key = root.key := by
+  cases path with
+  | nil => exact hf root
+  | cons k rest =>
+    simp only [modifyAt]
+    cases findKey k root.ch with
+    | none => rfl
+    | some c => simp [withCh_key]
+
+/-- the node put at `path` by `modifyAt` is what `get_referable` finds there afterwards -/
+private theorem getReferable_modifyAt (f : Elem → Elem) (hf : ∀ x, (f x).key = x.key) (root : Elem) (path : List String)
+    (e : Elem) (h : getReferable root path = .ok e) : getReferable (modifyAt f root path) path = .ok (f e) := by
+  induction path generalizing root with
+  | nil => simp [getReferable] at h; subst h; rfl
+  | cons k rest ih =>
+    unfold getReferable at h
+    by_cases hn : root.isNamespace = true
+    · simp only [hn, not_true_eq_false, if_false] at h
+      cases hc : findKey k root.ch with
+      | none => simp [hc] at h
+      | some c =>
+        simp only [hc] at h
+        have hck := findKey_key hc
+        have hmk : (modifyAt f c rest).key = k := by rw [modifyAt_key f hf, hck]
+        simp only [modifyAt, hc]
+        unfold getReferable
+        simp only [withCh_isNamespace, hn, not_true_eq_false, if_false, withCh_ch, findKey_replaceKey hc hmk]
+        exact ih c h
+    · simp [hn] at h
+
+private theorem getReferable_append (root : Elem) (p q : List String) (e : Elem) (h : getReferable root p = .ok e) :
+    getReferable root (p ++ q) = getReferable e q := by
+  induction p generalizing root with
+  | nil => simp [getReferable] at h; subst h; rfl
+  | cons k rest ih =>
+    unfold getReferable at h
+    by_cases hn : root.isNamespace = true
+    · simp only [hn, not_true_eq_false, if_false] at h
+      cases hc : findKey k root.ch with
+      | none => simp [hc] at h
+      | some c =>
+        simp only [hc] at h
+        simp only [List.cons_append]
+        rw [getReferable]
+        simp only [hn, not_true_eq_false, if_false, hc]
+        exact ih c h
+    · simp [hn] at h
+
+/-- **Created elements are retrievable at the returned location.**  `post_submodel_submodel_elements_id_short_path` stores
+    `modifyAt (fun _ => parent') root path` with `parent' = add_referable(parent, new)` and answers with the Location
+    `path ++ [new.idShort]`; resolving that path in the stored tree yields the new element, filed under its own idShort. -/
+theorem c10_elem_create_get (root parent parent' n : Elem) (path : List String) (k : String)
+    (hp : getReferable root path = .ok parent) (hns : parent.isNamespace = true)
+    (hadd : addReferable parent n = .ok parent') (hk : n.idShort = some k) :
+    getReferable (modifyAt (fun _ => parent') root path) (path ++ [k]) = .ok (n.withKey k) ∧
+      (n.withKey k).key = k ∧ (n.withKey k).idShort = some k := by
+  unfold addReferable at hadd
+  rw [hk] at hadd
+  simp only [] at hadd
+  by_cases hdup : (findKey k parent.ch).isSome = true
+  · simp [hdup] at hadd
+  · simp only [hdup] at hadd
+    have hpar : parent' = parent.withCh (parent.ch ++ [n.withKey k]) := by
+      simp at hadd; exact hadd.symm
+    have hkey : ∀ x : Elem, ((fun _ => parent') x).key = x.key → True := fun _ _ => trivial
+    have hnone : findKey k parent.ch = none := by
+      cases hf : findKey k parent.ch with
+      | none => rfl
+      | some c => simp [hf] at hdup
+    have hwk : (n.withKey k).key = k := by cases n; rfl
+    have hwi : (n.withKey k).idShort = some k := by cases n; simpa [Elem.withKey, Elem.idShort] using hk
+    refine ⟨?_, hwk, hwi⟩
+    -- the parent found at `path` is replaced by parent' (same filing key), then one more step finds the new child
+    have hstep : getReferable (modifyAt (fun x => x.withCh (parent.ch ++ [n.withKey k])) root path) path
+        = .ok (parent.withCh (parent.ch ++ [n.withKey k])) :=
+      getReferable_modifyAt _ (fun x => withCh_key x _) root path parent hp
+    have hsame : modifyAt (fun _ => parent') root path = modifyAt (fun x => x.withCh (parent.ch ++ [n.withKey k])) root path := by
+      rw [hpar]
+      clear hstep hadd hdup hkey hnone
+      induction path generalizing root with
+      | nil => simp [getReferable] at hp; subst hp; rfl
+      | cons k2 rest ih =>
+        unfold getReferable at hp
+        by_cases hn2 : root.isNamespace = true
+        · simp only [hn2, not_true_eq_false, if_false] at hp
+          cases hc : findKey k2 root.ch with
+          | none => simp [hc] at hp
+          | some c => simp only [hc] at hp; simp only [modifyAt, hc]; rw [ih c hp]
+        · simp [hn2] at hp
+    rw [hsame, getReferable_append _ path [k] _ hstep]
+    unfold getReferable
+    simp only [withCh_isNamespace, hns, not_true_eq_false, if_false, withCh_ch, findKey_append_new hnone hwk]
+    rfl
+
 /-! ### the qualifier defect of `update_from`, as a proved witness (known finding http:PUT:qualifier-value-not-replaced) -/
 
 def qOld : Obj := .sm "s" (.mk "" .sm none 0 [("t", 1)] [])
